@@ -125,6 +125,66 @@ def signature(beh):
     return (beh["cls"], beh["ps"], tuple(beh["rels"]))
 
 
+def replay_image(beh, fmt):
+    """a generated PE / Mach-O file through load_program: sections/segments, program counter, fetch at the entry"""
+    out = []
+    set_pagesize(4096)
+    exp = beh["expect"]
+    try:
+        task = load(beh["bytes"])
+    except Exception as ex:
+        out.append(("C15:%s:load:raises:%s" % (fmt, type(ex).__name__), "load_program raised %r" % (ex,)))
+        return out
+    if task is None:
+        out.append(("C15:%s:load:none" % fmt, "load_program returned no task for a loadable image"))
+        return out
+    try:
+        compare_image(task, beh["image"], out, fmt)
+        entry = c14.dval(exp["entry"])
+        pc = pc_value(task)
+        if pc != entry:
+            out.append(("C15:%s:pc" % fmt, "program counter is %r after loading, the entry point is %#x" % (pc, entry)))
+        if beh["atentry"]:
+            try:
+                i = task.read_instruction(entry)
+            except Exception as ex:
+                out.append(("C15:%s:fetch:raises:%s" % (fmt, type(ex).__name__), "read_instruction(%#x) raised %r" % (entry, ex)))
+                i = None
+            if i is not None and hasattr(i, "bytes"):
+                want = beh["atentry"][:len(i.bytes)]
+                got = list(i.bytes)[:len(want)]
+                if got != want:
+                    first = next(k for k, (g, w) in enumerate(zip(got, want)) if g != w)
+                    key = "C15:%s:fetch" % fmt if first < beh.get("nfile", 16) else "C15:%s:fetch:bss" % fmt
+                    out.append((key, "instruction fetched at %#x has bytes %s, the file places %s there"
+                                % (entry, bytes(got).hex(), bytes(want).hex())))
+    except Exception as ex:
+        out.append(("C15:%s:observe:raises:%s" % (fmt, type(ex).__name__), "reading the loaded task raised %r" % (ex,)))
+    return out
+
+
+def replay_image_chunk(args):
+    from . import tlc
+    spool, lo, hi, fmt = args
+    c14.quiet()
+    res = {"n": 0, "fails": [], "sigs": set(), "sample": None}
+    for beh in tlc.iter_spool_range(spool, lo, hi):
+        res["n"] += 1
+        seen = set()
+        for key, what in replay_image(beh, fmt):
+            if key in seen:
+                continue
+            seen.add(key)
+            if len(res["fails"]) < 200:
+                res["fails"].append({"key": key, "what": what, "bytes": beh["bytes"]})
+        res["sigs"].add(tuple((s["fs"] < len(s["mem"]), s["fs"] == 0) for s in beh["image"]) + (beh.get("plus", None), beh.get("align", 0)))
+        if res["sample"] is None:
+            res["sample"] = {"format": fmt, "size": len(beh["bytes"]),
+                             "sections": [{"va": s["va"], "size": len(s["mem"]), "file_backed": s["fs"], "mem_head": s["mem"][:12]} for s in beh["image"]],
+                             "entry": beh["expect"]["entry"], "atentry": beh["atentry"]}
+    return res
+
+
 def replay_stream(beh):
     """raw / HEX / SREC input through load_program(bytes, cpu) (the raw loader)"""
     from . import c14hex
